@@ -39,8 +39,9 @@ var (
 //
 //	reduce or do not call GetRules if possible
 func GetRules() []Rule {
-	rules := make([]*Rule, 0, len(ruleMap))
 	ruleMapMux.RLock()
+	// ruleMap is replaced by LoadRules under the write lock: only read it (len included) under the lock
+	rules := make([]*Rule, 0, len(ruleMap))
 	for _, rs := range ruleMap {
 		rules = append(rules, rs...)
 	}
